@@ -45,6 +45,9 @@ func NewProcessor(queue chan Operator, buffer int, threads int) (p *Processor) {
 		p.work <- struct{}{}
 	}
 
+	// The last worker to finish closes the result channel; several workers finishing
+	// together may all see the full work channel, so the close is done once.
+	var closeOut sync.Once
 	for i := 0; i < threads; i++ {
 		p.wg.Add(1)
 		go func() {
@@ -55,7 +58,7 @@ func NewProcessor(queue chan Operator, buffer int, threads int) (p *Processor) {
 				}
 				p.work <- struct{}{}
 				if len(p.work) == p.threads {
-					close(p.out)
+					closeOut.Do(func() { close(p.out) })
 				}
 				p.wg.Done()
 			}()
